@@ -119,6 +119,9 @@ GROUPS = {
         ('omitted on alias', HEAD + 'annotation In = Omitted("internal")\nalias Sec = String\n    @In\n', R),
         ('annotation name clash', HEAD + 'annotation In = Omitted("internal")\nannotation In = Omitted("x")\n', R),
         ('imported annotation', ('ann.stone', 'namespace ann\nannotation In = Omitted("internal")\n'), A),
+        ('annotation type qualified by the own namespace', HEAD + 'annotation_type T\n    x Int32\nannotation X = ns.T(x=1)\n', R),
+        ('annotation type in a namespace not imported', HEAD + 'annotation X = ns2.T(x=1)\n', R),
+        ('annotation type in an unknown namespace', HEAD + 'annotation X = zz.T(x=1)\n', R),
     ],
     'examples': [
         ('missing required', HEAD + 'struct S\n    a Int32\n    b Int32\n    example default\n        a = 1\n', R),
@@ -178,6 +181,10 @@ GROUPS = {
         ('two namespaces decls', HEAD + 'namespace other\n', R),
         ('stone_cfg route', 'namespace stone_cfg\nroute r (Void, Void, Void)\n', R),
         ('stone_cfg other struct', 'namespace stone_cfg\nstruct NotRoute\n    a Int32\n', R),
+        ('stone_cfg union route', 'namespace stone_cfg\nunion Route\n    a\n', R),
+        ('keyword example in alias position', HEAD + 'example x = String\n', R),
+        ('keyword doc in alias position', HEAD + 'doc x = String\n', R),
+        ('keyword union in alias position', HEAD + 'union x = String\n', R),
     ],
 }
 
@@ -193,6 +200,8 @@ def _specs(case):
     specs.append(('t.stone', main))
     if case[0] in ('stone_cfg route', 'stone_cfg other struct'):
         specs.append(('u.stone', HEAD + 'struct S\n    a Int32\n'))
+    if case[0] == 'stone_cfg union route':
+        specs.append(('u.stone', HEAD + 'route r (Void, Void, Void)\n    attrs\n        x = 1\n'))
     return specs
 
 
